@@ -14,7 +14,15 @@
 // argv[1] = name of a QTextCodec to install with QTextCodec::setCodecForLocale first ("-" = leave the default): the
 //   event text must not depend on the locale codec of the process
 // argv[2] argv[3] (optional, hex UTF-16 units, "-" = empty string) = the sdkName / sdkVersion constructor arguments of the own objects A and B
-//   (also of the re-created A); absent = the default arguments.  SentryFormatter::instance() always has the defaults.
+//   (also of the re-created A); absent = the default arguments; argv[3] = "~": only sdkName is given (one-argument call).
+//   SentryFormatter::instance() always has the defaults.
+// front end (round 8): a first token "v1" on an input line = for THIS message the own objects A / B (and the re-created A) are the
+//   ones obtained through the fluent front end, SimplePipeline().formatToSentry(<the same arguments>) followed by a capturing
+//   .handler(...): as a step "F <sel>" that SimplePipeline is the next handler of the pipeline; without steps a COPY of the message
+//   is processed by it and the captured formattedMessage() is the record.  ("v0" or no such token = constructed directly.)
+//   Before the own fluent objects are made the process obtains one more through formatToSentry with OTHER arguments (the defaults
+//   when arguments are given, ("warm.sdk", "0.0") otherwise) and formats one event with it: an object obtained through the front
+//   end must not depend on what the front end handed out before.
 // output line: <time().toMSecsSinceEpoch()> <threadId> <hex of qVersion()> <hex of record>...
 #ifdef VERIF_HEADER_ONLY
 #include "qtlogger.h"
@@ -92,18 +100,45 @@ int main(int argc, char **argv)
     }
     std::string line;
     const bool sdkArgs = argc > 3;
-    const QString sdkName = sdkArgs ? unhex(argv[2]) : QString(), sdkVersion = sdkArgs ? unhex(argv[3]) : QString();
-    auto make = [&]() { return sdkArgs ? SentryFormatterPtr::create(sdkName, sdkVersion) : SentryFormatterPtr::create(); };
+    const bool oneArg = sdkArgs && std::string(argv[3]) == "~";
+    const QString sdkName = sdkArgs ? unhex(argv[2]) : QString(), sdkVersion = sdkArgs && !oneArg ? unhex(argv[3]) : QString();
+    auto make = [&]() { return !sdkArgs ? SentryFormatterPtr::create() : oneArg ? SentryFormatterPtr::create(sdkName) : SentryFormatterPtr::create(sdkName, sdkVersion); };
     SentryFormatterPtr fa = make(), fb = make();
-    auto formatter = [&](int sel) -> SentryFormatterPtr {
-        if (sel == 1) return fb;
+    // the same objects obtained through the fluent front end
+    static QString captured;
+    typedef QSharedPointer<SimplePipeline> SimplePipelinePtr;
+    auto capture = [](LogMessage &lm) { captured = lm.formattedMessage(); return true; };
+    SimplePipelinePtr warm = SimplePipelinePtr::create();
+    if (sdkArgs) warm->formatToSentry(); else warm->formatToSentry(QStringLiteral("warm.sdk"), QStringLiteral("0.0"));
+    warm->handler(capture);
+    {
+        QMessageLogContext wctx("w.cpp", 1, "void w()", "warm");
+        LogMessage wm(QtInfoMsg, wctx, QStringLiteral("warm-up"));
+        warm->process(wm);
+    }
+    auto makeFluent = [&]() {
+        SimplePipelinePtr sp = SimplePipelinePtr::create();
+        if (!sdkArgs) sp->formatToSentry(); else if (oneArg) sp->formatToSentry(sdkName); else sp->formatToSentry(sdkName, sdkVersion);
+        sp->handler(capture);
+        return sp;
+    };
+    SimplePipelinePtr pa = makeFluent(), pb = makeFluent();
+    auto formatter = [&](int sel, bool fluent) -> HandlerPtr {
         if (sel == 2) return SentryFormatter::instance();
+        if (fluent) {
+            if (sel == 1) return pb;
+            if (sel == 3) { pa.reset(); pa = makeFluent(); }
+            return pa;
+        }
+        if (sel == 1) return fb;
         if (sel == 3) { fa.reset(); fa = make(); }
         return fa;
     };
     while (std::getline(std::cin, line)) {
         std::istringstream is(line);
         long long ms; int type, ln, na; std::string msg, fmt, cat, file, fn;
+        bool fluent = false;
+        if (line.size() > 1 && line[0] == 'v') { std::string v; is >> v; fluent = v == "v1"; }
         is >> ms >> type >> msg >> fmt >> cat >> file >> fn >> ln >> na;
         g_ms = ms;
         QByteArray c = unhex(cat).toLatin1(), f = unhex(file).toLatin1(), fu = unhex(fn).toLatin1();
@@ -130,11 +165,16 @@ int main(int argc, char **argv)
                                        p << FunctionHandlerPtr::create([kk](LogMessage &x) { x.removeAttribute(kk); return true; }); }
                 else if (tok == "(") { int scoped; is >> scoped; PipelinePtr n = PipelinePtr::create(scoped != 0); p << n; stack.push_back(n); }
                 else if (tok == ")") { if (stack.size() > 1) stack.pop_back(); }
-                else if (tok == "F") { int sel; is >> sel; p << formatter(sel);
+                else if (tok == "F") { int sel; is >> sel; p << formatter(sel, fluent);
                                        p << FunctionHandlerPtr::create([&records](LogMessage &x) { records.push_back(x.formattedMessage()); return true; }); }
             }
             root->process(m);
             for (const QString &r : records) std::cout << " " << hex(r);
+        } else if (fluent) {
+            LogMessage copy(m);
+            captured = QString();
+            pa->process(copy);
+            std::cout << " " << hex(captured);
         } else {
             std::cout << " " << hex(fa->format(m));
         }
